@@ -95,6 +95,14 @@ func (handler) PostM(ctx context.Context, req *api.PostMReq) (string, error) {
 	return fmt.Sprintf("m:%s:%d", req.A, len(b)), nil
 }
 
+func (handler) PostP(ctx context.Context, req *api.P) (*api.P, error) {
+	vs.Point("handler.PostP")
+	b, _ := json.Marshal(req)
+	vs.Observe("handler PostP %d members", len(req.Pattern0Props)+len(req.Pattern1Props))
+	note(ctx, "PostP{%s}", b)
+	return req, nil
+}
+
 func (handler) PostT(ctx context.Context, req api.PostTReq) (api.PostTOK, error) {
 	vs.Point("handler.PostT")
 	b, err := io.ReadAll(req.Data)
@@ -260,6 +268,17 @@ var menu = []call{
 	}},
 	{"postM invalid", func(ctx context.Context, c *api.Client) string {
 		r, err := c.PostM(ctx, &api.PostMReq{A: "much-too-long-a-field", F: ht.MultipartFile{Name: "g.txt", File: strings.NewReader("other")}})
+		return show(r, err)
+	}},
+	// member names matched by patterns (the decoder hands the raw name bytes to the compiled pattern);
+	// one member per map: the encoder writes a map in Go's own iteration order, which no seam controls:
+	// names the backtracking-engine pattern accepts, names it refuses, names for the RE2 pattern
+	{"postP names for the backtracking pattern", func(ctx context.Context, c *api.Client) string {
+		r, err := c.PostP(ctx, &api.P{ID: api.NewOptString("one"), Pattern0Props: api.PPattern0{"cdefgh": 2}})
+		return show(r, err)
+	}},
+	{"postP other names, one refused by the backtracking pattern", func(ctx context.Context, c *api.Client) string {
+		r, err := c.PostP(ctx, &api.P{ID: api.NewOptString("two"), Pattern0Props: api.PPattern0{"xyzzzz": 3}, Pattern1Props: api.PPattern1{"123": "n"}})
 		return show(r, err)
 	}},
 	{"postT text", func(ctx context.Context, c *api.Client) string {
